@@ -179,6 +179,57 @@ def run(ctx):
                     # "enabled" is any non-zero mask byte: runs of differing non-zero values carry no toggle
                     for vals_ in ((0x01, 0xFF, 0x80), (0xFF, 0x01, 0x00), (0x80, 0x00, 0x01), (0x01, 0x01, 0xFF), (0x00, 0x7F, 0xFF)):
                         round_trip(bs, list(vals_[:len(bs)]), fl_)
+            # the parser-only numeric constructs: #/##/###/#### decimal (or 0x) numbers of 1/2/4/8 bytes,
+            # %/%% float/double, $ switches to big-endian; expected bytes from python's struct
+            import struct as _struct
+            num = {'ok': 0, 'bad': None, 'und': None}
+
+            def parse_only(txt):
+                try:
+                    back = PE.call_with(Pfull, [Str(txt), None, 0])
+                    return bytes(back.b) if isinstance(back, Str) else None
+                except Fault as e:
+                    return 'faults: %s' % e
+                except Thrown as e:
+                    return 'throws %s' % e.etype
+                except Undecided as e:
+                    num['und'] = str(e)
+                    return None
+            for k_, nb in ((1, 1), (2, 2), (3, 4), (4, 8)):
+                for v_ in (0, 1, 127, 128, 255, 256, 65535, 65536, 2147483647, 2147483648, 4294967295, 4294967296, (1 << 63) - 1, 1 << 63, (1 << 64) - 1, -1, -128):
+                    if v_ >= 1 << (8 * nb) and nb < 8:
+                        continue
+                    for big in (0, 1):
+                        for spell in ('%d' % v_, hex(v_) if v_ >= 0 else None):
+                            if spell is None or num['und']:
+                                continue
+                            txt = (b'$' if big else b'') + b'#' * k_ + spell.encode() + b' '
+                            want = (v_ & ((1 << (8 * nb)) - 1)).to_bytes(nb, 'big' if big else 'little')
+                            got = parse_only(txt)
+                            if num['und']:
+                                break
+                            if got != want:
+                                num['bad'] = num['bad'] or (txt, got, want)
+                            else:
+                                num['ok'] += 1
+            for fv in (0.0, 1.5, -2.25, 1e10, 3.0e-5):
+                for big in (0, 1):
+                    for k_, fmt_ in ((1, 'f'), (2, 'd')):
+                        if num['und']:
+                            continue
+                        txt = (b'$' if big else b'') + b'%' * k_ + repr(fv).encode() + b' '
+                        want = _struct.pack(('>' if big else '<') + fmt_, fv)
+                        got = parse_only(txt)
+                        if not num['und'] and got != want:
+                            num['bad'] = num['bad'] or (txt, got, want)
+                        elif not num['und']:
+                            num['ok'] += 1
+            if num['und']:
+                ctx.undecided(R, 'numeric-constructs', Pfull, 'the #/%% constructs of the parser could not be evaluated (%s)' % num['und'])
+            elif num['bad']:
+                ctx.bad(R, 'numeric-constructs', Pfull, 'the data string %r parses to %s; the construct denotes the bytes %s' % (num['bad'][0].decode('latin1'), num['bad'][1].hex() if isinstance(num['bad'][1], bytes) else num['bad'][1], num['bad'][2].hex()))
+            else:
+                ctx.ok(R, 'numeric-constructs', Pfull, '%d texts: #/##/###/#### numbers (decimal and 0x, boundary and negative values) and %%/%%%% floats in both byte orders parse to the bytes they denote' % num['ok'])
             if r6['und']:
                 ctx.undecided(R, 'round-trip', Pfull, 'formatter / parser could not be evaluated (%s)' % r6['und'])
             elif r6['bad']:
